@@ -137,7 +137,7 @@ def required_labels(tier):
 
 
 def phases(tier, seed):
-    n = 9600 if tier == 'quick' else 48000
+    n = 9600 if tier == 'quick' else 300000
     return [
         Enum('auto-all-versions', lambda: auto_enum(tier, seed), exhaustive=False),
         Enum('requested-triples', lambda: requested_enum(tier, seed), exhaustive=(tier == 'thorough'),
